@@ -162,9 +162,10 @@ type msgPlan struct {
 	PreKeys  int // how many of the four poison keys pre-exist
 	Handler  int // index of the router handler that receives it (router mode); -1 = dispatched directly (no Router context)
 	Attempts []attemptPlan
-	Ctx      []ctxInj // foreign context values application code stores on the message (extended classes)
-	Outage   bool     // '+panics': one accepted failure on every delivery, the poison publisher panics / fails first and accepts on the last one
-	At       int      // 'router+lifecycle': delivered in the message phase after this wave was started (waves+1 = after the whole history)
+	Ctx      []ctxInj     // foreign context values application code stores on the message (extended classes)
+	Outage   bool         // '+panics': one accepted failure on every delivery, the poison publisher panics / fails first and accepts on the last one
+	Inherit  *inheritPlan // 'router+inherited': the upstream hops whose context the message carries when it is consumed (nil: fresh context)
+	At       int          // 'router+lifecycle': delivered in the message phase after this wave was started (waves+1 = after the whole history)
 }
 
 func (p *msgPlan) attempt(k int) *attemptPlan {
